@@ -157,9 +157,13 @@ def report_failures(prop, tier, seed, results):
             m = mons[0]
             cid = vlib.field(m, "case")
             tag = m.split()[1]
-            ops = case_ops(r, cid)
-            ln = int(vlib.field(m, "line"))
-            ops = ops[:ln]
+            if (vlib.field(m, "op") or "") == "[unit_roundtrip]" and vlib.field(m, "fmt"):
+                # the probe builds its own worlds: only the case's format matters (no need to regenerate the run)
+                ops = [f"cfg simple {vlib.field(m, 'fmt')}", "unit_roundtrip"]
+            else:
+                ops = case_ops(r, cid)
+                ln = int(vlib.field(m, "line"))
+                ops = ops[:ln]
             def still(o, tag=tag):
                 rr = run_script_ops(o)
                 return any(x.split()[1] == tag for x in rr["mon"])
